@@ -39,3 +39,6 @@ def run(ctx):
     from .. import intwidth
 
     intwidth.int_narrowing(ctx)  # index / offset arrays must not wrap
+    from .. import state as _state
+
+    _state.process_state(ctx)  # a subspace and its localised companion are built per space: no table shared through module-level state under an incomplete key
